@@ -327,4 +327,40 @@ CpKinds ==
 CpSeqs(maxlen) == UNION { [1..n -> 1..Len(CpKinds)] : n \in 0..maxlen }
 CpOf(s) == [i \in 1..Len(s) |-> CpKinds[s[i]]]
 
+
+\* ---- pairwise domains: two fields (or two list lengths) varied together ------------
+\* fs is a sequence of << field name, set of values >>
+PairVary(base, fs) ==
+  UNION { { [base EXCEPT ![fs[p[1]][1]] = x, ![fs[p[2]][1]] = y] : x \in fs[p[1]][2], y \in fs[p[2]][2] }
+          : p \in { q \in (1..Len(fs)) \X (1..Len(fs)) : q[1] < q[2] } }
+U32S == { << 0, 0, 0, 0 >>, << 255, 255, 255, 255 >>, << 128, 7, 0, 1 >> }
+U64S == { Zeros(8), Fill(8, 255), << 128, 0, 0, 7, 0, 0, 0, 1 >> }
+RBFields == << << "ssrc", U32S >>, << "fl", {0, 255, 129} >>, << "lost", { << 0, 0, 0, 0 >>, << 0, 255, 255, 255 >>, << 0, 128, 1, 0 >> } >>,
+               << "seq", U32S >>, << "jit", U32S >>, << "lsr", U32S >>, << "dlsr", U32S >> >>
+PairSR ==
+  PairVary(BaseSR, << << "ssrc", U32S >>, << "ntp", U64S >>, << "rtp", U32S >>, << "pc", U32S >>, << "oc", U32S >>,
+                      << "reports", { RBs(0), RBs(2), RBs(31) } >>, << "ext", { << >>, Ramp(4, 9), Ramp(12, 9) } >> >>)
+  \cup { [BaseSR EXCEPT !.reports = << RBn(1), r, RBn(3) >>] : r \in PairVary(BaseRB, RBFields) }     \* the second of three blocks varies
+PairRR ==
+  PairVary(BaseRR, << << "ssrc", U32S >>, << "reports", { RBs(0), RBs(2), RBs(31) } >>, << "ext", { << >>, Ramp(1, 9), Ramp(5, 9), Ramp(8, 9) } >> >>)
+  \cup { [BaseRR EXCEPT !.reports = << RBn(1), r >>, !.ext = Ramp(3, 1)] : r \in PairVary(BaseRB, RBFields) }
+PairSDES ==
+  { [k |-> "SDES", chunks |-> [i \in 1..nc |-> Chunk1(i, [j \in 1..((ni + i) % 4) |-> Item(1 + ((i + j) % 8), (tl + j) % 7)])]] :
+      nc \in {1, 2, 3, 31}, ni \in 0..3, tl \in 0..6 }
+  \cup { [k |-> "SDES", chunks |-> << Chunk1(1, << Item(2, a), Item(1, 255), Item(3, b) >>), Chunk1(2, << Item(1, b) >>) >>] : a \in 0..4, b \in 0..4 }
+PairBYE == { [k |-> "BYE", srcs |-> [i \in 1..ns |-> << i, 9, 8, 255 - i >>], reason |-> Ramp(rl, 64)] : ns \in {0, 1, 2, 3, 31}, rl \in {0, 1, 2, 3, 4, 5, 6, 7, 255} }
+PairAPP == { [BaseAPP EXCEPT !.st = s, !.name = nm, !.data = Ramp(dl, 32), !.ssrc = x] :
+               s \in {0, 31}, nm \in { << 0, 0, 0, 0 >>, << 78, 65, 77, 69 >> }, dl \in {0, 1, 2, 3, 4, 5, 7, 8}, x \in {D4(1), << 255, 255, 255, 255 >>} }
+PairNACK == { [BaseNACK EXCEPT !.nacks = [i \in 1..n |-> IF i = pos THEN Pair(p, b) ELSE Pair(256 * i + i, 257 * i)]] :
+                n \in {2, 3, 253}, pos \in {1, 2}, p \in {0, 65535, 32769}, b \in {0, 65535, 32769} }
+PairSLI == { [BaseSLI EXCEPT !.sli = [i \in 1..n |-> IF i = pos THEN Sli(f, m, p) ELSE Sli(i, i + 1, i + 2)]] :
+               n \in {1, 3}, pos \in {1, 3}, f \in {0, 8191, 4097}, m \in {0, 8191, 1025}, p \in {0, 63, 33} } \ { x \in {BaseSLI} : FALSE }
+PairFIR == { [BaseFIR EXCEPT !.fir = [i \in 1..n |-> IF i = pos THEN Fir(s, q) ELSE Fir(D4(9 * i), i)], !.media = md] :
+               n \in {1, 2, 3}, pos \in {1, 2}, s \in U32S, q \in {0, 255, 129}, md \in {D4(5), Zeros(4)} }
+PairREMB == { [BaseREMB EXCEPT !.br = x, !.ssrcs = [i \in 1..n |-> << i, 5, 6, 255 - i >>], !.sender = sd] :
+                x \in { [s |-> 0, e |-> e, f |-> f] : e \in {0, 127, 144, 145, 190, 207, 208}, f \in {0, 8388607, 4194305} }, n \in {0, 1, 2, 255}, sd \in {D4(1), Fill(4, 255)} }
+PairCCFB == { [BaseCCFB EXCEPT !.blocks = [i \in 1..Len(ls) |-> CcBlock(<< i, 7, 7, i >>, bg + i, [j \in 1..ls[i] |-> Mb(j % 3 # 0, ((i + j) % 4) * BoolBit(j % 3 # 0), ((97 * j + i) % 8192) * BoolBit(j % 3 # 0))])]] :
+                ls \in { << 0 >>, << 1 >>, << 2 >>, << 3 >>, << 2, 0 >>, << 0, 2 >>, << 4, 0, 2 >>, << 1, 1, 1 >>, << 3, 2, 1 >>, << 2, 3, 4 >>, << 5, 0, 0, 1 >> }, bg \in {0, 65530} }
+PairAll == PairSR \cup PairRR \cup PairSDES \cup PairBYE \cup PairAPP \cup PairNACK \cup PairSLI \cup PairFIR \cup PairREMB \cup PairCCFB
+
 =============================================================================
